@@ -55,12 +55,12 @@ def format_code(text, filename):
             )
             return text
 
-        new_text = result.stdout.decode("utf-8")
-
         try:
+            new_text = result.stdout.decode("utf-8")
             ast.parse(new_text)
             valid = bool(new_text.strip()) or not text.strip()
-        except SyntaxError:
+        except (SyntaxError, ValueError):
+            # ValueError: output which is not utf-8 or contains null bytes
             valid = False
 
         if not valid:
